@@ -141,6 +141,7 @@ class Ctx(object):
         self.fname = fname          # path relative to root, absolute path, or None
         self.files = files          # {rel: text} when the tree was generated, else None
         self.workload = workload
+        self.extra = {}             # goes into every case (e.g. the scenario a request was part of)
         self._project = None
         self._epoch = Steps.epoch
 
@@ -161,8 +162,8 @@ class Ctx(object):
 
     def describe(self):
         if self.files is None:
-            return {'root': {'kind': 'dir', 'path': self.root}, 'fname': self.fname, 'workload': self.workload}
-        return {'root': {'kind': 'files', 'files': self.files}, 'fname': self.fname, 'workload': self.workload}
+            return dict(self.extra, root={'kind': 'dir', 'path': self.root}, fname=self.fname, workload=self.workload)
+        return dict(self.extra, root={'kind': 'files', 'files': self.files}, fname=self.fname, workload=self.workload)
 
 
 def write_tree(root, files):
@@ -357,6 +358,7 @@ class Mon(object):
         self.max_steps = {}          # entry -> [steps, budget, bytes]
         self.parse_cache = {}
         self.dead_texts = set()
+        self.check_changes = False
         if Steps._snap is None:
             Steps._snap = self.steps.snapshot()
 
@@ -384,7 +386,11 @@ class Mon(object):
         st.start(budget)
         try:
             try:
-                if entry == 'lint':
+                if self.check_changes:
+                    # as the server does around every request
+                    with project.check_changes():
+                        v = fn(project, text, filename) if entry == 'lint' else fn(project, text, tuple(pos), filename)
+                elif entry == 'lint':
                     v = fn(project, text, filename)
                 else:
                     v = fn(project, text, tuple(pos), filename)
@@ -508,6 +514,14 @@ class Mon(object):
                 return out
             if isinstance(val, RecursionError) and self.recursion_outside(text, None, None, ctx):
                 p.count('outside_domain:nesting_beyond_recursion_limit')
+                return out
+            if isinstance(val, SyntaxError):
+                # lint reports syntax errors of the text as E01 and has no business raising one
+                frame, where, _via = supp_frame(val.__traceback__, self.suppdir)
+                mech = 'lint:SyntaxError-but-text-parses' if out[0] == 'ok' else 'lint:SyntaxError-raised-instead-of-E01'
+                case = dict(ctx.describe(), entry='lint', text=text, pos=None, tag=tag, exception='%s: %s' % (type(val).__name__, val),
+                            raised_at=where, traceback=tb_summary(val.__traceback__, self.suppdir))
+                self.violate(mech, 'lint raised %s(%s) at %s; ast.parse of the text: %s' % (type(val).__name__, val, where, out[0]), case)
                 return out
             self.unexpected('lint', ctx, text, None, val, ci.Lines(text), tag)
             return out
@@ -857,6 +871,104 @@ def work_compiled(arg):
     return m.dump()
 
 
+SCENARIO_FILES = {'m.py': 'x = ""\nclass C:\n    a = 1\n', 'pkg/__init__.py': 'from .sub import y\n', 'pkg/sub.py': 'y = ""\n',
+                  'user.py': 'from m import *\nfrom pkg.sub import y as z\n'}
+SCENARIO_TEXT = ('import m\nm.x.zz\nfrom m import C\nC.a\nfrom m import *\nx\nimport pkg.sub\npkg.sub.y\nfrom pkg import y\ny.zz\n'
+                 'import user\nuser.x.zz\nuser.z\n')
+
+
+def _scenario_history(m, part, name, ops):
+    """one long-lived Project; between rounds of requests files of cached modules are deleted / rewritten / recreated"""
+    tmp = tempfile.mkdtemp(prefix='vf-')
+    try:
+        write_tree(tmp, SCENARIO_FILES)
+        ctx = Ctx(tmp, 'main.py', files=SCENARIO_FILES, workload='scenario:' + name)
+        done = []
+        m.check_changes = True
+        for op in [None] + ops:
+            if op is not None:
+                kind, rel, content = op
+                path = os.path.join(tmp, rel)
+                if kind == 'delete':
+                    if os.path.isdir(path):
+                        shutil.rmtree(path)
+                    elif os.path.exists(path):
+                        os.remove(path)
+                else:
+                    os.makedirs(os.path.dirname(path), exist_ok=True)
+                    with open(path, 'w') as f:
+                        f.write(content)
+                    st = os.stat(path)
+                    os.utime(path, (st.st_atime, st.st_mtime + 10 * (len(done) + 1)))
+                done.append(list(op))
+            ctx.extra = {'scenario': name, 'history_before_request': list(done)}
+            m.lint(ctx, SCENARIO_TEXT, name)
+            L = ci.Lines(SCENARIO_TEXT)
+            for pos in L.all_positions():
+                m.both(ctx, SCENARIO_TEXT, pos, L, name)
+            part.count('scenario_rounds')
+        part.case('scenario:' + name, nontrivial=True)
+    finally:
+        m.check_changes = False
+        shutil.rmtree(tmp, ignore_errors=True)
+
+
+SCENARIOS = {
+    'module-deleted': [('delete', 'm.py', None)],
+    'module-deleted-then-recreated': [('delete', 'm.py', None), ('write', 'm.py', 'x = 1\n')],
+    'submodule-deleted': [('delete', 'pkg/sub.py', None)],
+    'package-deleted': [('delete', 'pkg', None)],
+    'package-init-deleted': [('delete', 'pkg/__init__.py', None)],
+    'star-imported-module-deleted': [('delete', 'm.py', None), ('delete', 'user.py', None)],
+    'module-rewritten-invalid-then-valid': [('write', 'm.py', 'x = 2\n'), ('delete', 'm.py', None), ('write', 'm.py', 'x = []\n')],
+    'module-becomes-package': [('delete', 'm.py', None), ('write', 'm/__init__.py', 'x = {}\n')],
+    'everything-deleted': [('delete', 'm.py', None), ('delete', 'pkg', None), ('delete', 'user.py', None)],
+}
+
+# the buffer is valid, the copy of the edited file on disk is not, and it is reached through an import cycle
+ONDISK_CASES = [
+    ('ondisk-invalid-star-cycle', {'main.py': 'def broken(:\n', 'other.py': 'from main import *\ny = ""\n'},
+     'from other import *\ny\ny.zz\nimport other\nother.y.zz\n'),
+    ('ondisk-invalid-import-cycle', {'main.py': 'x = (\n', 'other.py': 'import main\ny = main.z\nfrom main import w\n'},
+     'import other\nother.y.zz\nother.w\nfrom other import w, y\nw.zz\n'),
+    ('ondisk-invalid-self-import', {'main.py': 'class A:\nx = 1\n'}, 'from main import x\nx.zz\nimport main\nmain.x\nfrom main import *\nx\n'),
+    ('ondisk-invalid-package-init', {'pkg/__init__.py': 'from .sub import *\n(\n', 'pkg/sub.py': 'from pkg import q\ns = 1\n'},
+     'from .sub import s\ns.zz\nfrom . import sub\nsub.s\n'),
+    ('ondisk-undecodable', {'main.py': None, 'other.py': 'from main import *\ny = 1\n'}, 'from other import *\ny\ny.zz\n'),
+    ('ondisk-empty', {'main.py': '', 'other.py': 'from main import *\ny = 1\n'}, 'from other import *\ny\ny.zz\nz = 1\n'),
+]
+
+
+def work_scenarios(arg):
+    _silence()
+    part = core.Part()
+    m = Mon(part)
+    for name in arg['names']:
+        if name in SCENARIOS:
+            _scenario_history(m, part, name, [tuple(o) for o in SCENARIOS[name]])
+    for name, files, text in ONDISK_CASES:
+        if name not in arg['names']:
+            continue
+        fname = 'pkg/__init__.py' if 'pkg/__init__.py' in files else 'main.py'
+        tmp = tempfile.mkdtemp(prefix='vf-')
+        try:
+            write_tree(tmp, {k: v for k, v in files.items() if v is not None})
+            for k, v in files.items():
+                if v is None:
+                    with open(os.path.join(tmp, k), 'wb') as f:
+                        f.write(b'x = "\xff\xfe"\n')
+            shown = {k: (v if v is not None else '<bytes ff fe: not UTF-8>') for k, v in files.items()}
+            ctx = Ctx(tmp, fname, files=shown, workload='scenario:' + name)
+            ctx.extra = {'scenario': name}
+            m.lint(ctx, text, name)
+            _all_positions(m, ctx, text, name, part)
+            part.case('scenario:' + name, nontrivial=True)
+        finally:
+            shutil.rmtree(tmp, ignore_errors=True)
+    part.sample({'workload': 'scenarios', 'names': arg['names'][:4]})
+    return m.dump()
+
+
 def dispatch(arg):
     import time
     fn, a = arg
@@ -894,6 +1006,8 @@ def _split(job):
         return [[fn, dict(a, indexes=[i], outside=False)] for i in a['indexes']]  # keeps 'family' and 'tier'
     if fn == 'work_compiled':
         return [[fn, dict(a, modules=[x])] for x in a['modules']]
+    if fn == 'work_scenarios':
+        return [[fn, dict(a, names=[x])] for x in a['names']]
     return [job]
 
 
@@ -976,6 +1090,8 @@ def main(run):
         run.extra.setdefault('family_sizes', {})[fam] = len(cases)
     fjobs.sort(key=lambda j: -sum(len(ci.family(j[1]['family'], run.tier)[i]['text']) for i in j[1]['indexes'])
                if j[1]['family'] == 'flat' else 0)
+    snames = sorted(SCENARIOS) + [c[0] for c in ONDISK_CASES]
+    sjobs = [['work_scenarios', {'names': snames[k::8]}] for k in range(8)]
     cjobs = [['work_compiled', {'modules': c}] for c in core.chunks(ci.COMPILED_MODULES, 5)]
     ngen = run.pick(16, 96)
     gjobs = [['work_gen', {'seed': seed, 'start': s, 'count': 2, 'sizes': ['tiny', 'small'], 'exhaustive_sizes': ['tiny', 'small'],
@@ -995,7 +1111,7 @@ def main(run):
     fjobs = pjobs + [j for j in fjobs if j[1]['indexes']]
     nflat = len(pjobs) + sum(1 for j in fjobs if j[1]['family'] == 'flat')
     alljobs = (fjobs[:nflat // 3] + hjobs[:8] + jobs[:len(jobs) // 2] + gjobs + fjobs[nflat // 3:] + hjobs[8:] +
-               jobs[len(jobs) // 2:] + kjobs + cjobs)
+               jobs[len(jobs) // 2:] + kjobs + sjobs + cjobs)
     maxs = collect(run, alljobs, timeout=run.pick(1200, 3600))
     run.extra['step_budget'] = {
         'budget': 'B(n) = 2e7 + 2e4*n LINE events on supp code objects for an n-byte text; 8*B on the second run',
@@ -1045,8 +1161,15 @@ def replay(run, path):
         data = json.load(f)
     part = core.Part()
     m = Mon(part)
+    seen_scenarios = set()
     for v in data['violations']:
         c = v['case']
+        if c.get('scenario'):
+            print('replay: scenario %s is re-run as a whole' % c['scenario'])
+            if c['scenario'] not in seen_scenarios:
+                seen_scenarios.add(c['scenario'])
+                run.merge(work_scenarios({'names': [c['scenario']]}))
+            continue
         if 'job' in c:
             print('replay: re-running the job %s in a worker process' % json.dumps(c['job'])[:300])
             core.run_parts(run, 'vf.props.c08:dispatch', [c['job']], timeout=3600, died_is_violation=True)
